@@ -52,6 +52,8 @@ def run(tier, seed, replay=None):
         kinds.add(k)
         if rec.get("left") is not None:
             leftover.append(rec)
+        if a.startswith("fault skipped") or rec["tok_real"].startswith("fault skipped"):
+            continue         # not run: the process had already hung several times in this batch
         if a.startswith("fault") or rec["tok_real"].startswith("fault"):
             faults.append(rec)
         elif a != rec["model"] or rec["tok_real"] != rec["tok_model"]:
